@@ -62,6 +62,19 @@ def realize(x: Any) -> Any:
     return x
 
 
+def witness(*xs: Any) -> Any:
+    """ONE concrete representative of the current path class: the path is detached from the search tree first, so the
+    realization does not make the explorer enumerate every other value of the class (``realize`` does: each value becomes
+    a branch).  Must be the last symbolic action of a harness: forks after it are not explored."""
+    if not symbolic():
+        return xs if len(xs) != 1 else xs[0]
+    from crosshair.core import deep_realize
+    from crosshair.statespace import context_statespace
+    context_statespace().detach_path()
+    out = tuple(deep_realize(x) for x in xs)
+    return out if len(out) != 1 else out[0]
+
+
 def pin_int(x: Any, lo: int, hi: int) -> int:
     """Concretize a symbolic int known to lie in [lo, hi] by one explicit fork per value.  Cheaper and more predictable than
     ``realize`` (CrossHair's model-value search visits the same value combination several times once a few of them nest)."""
